@@ -22,10 +22,11 @@
      further step)
    * registrars: every operation takes Caller.mu; it takes effect at one instant (ALin)
      between its call (ACall) and its return (ARet)
-   * AddTmp: the wrapper calls Remove(cuid) when the function returned true, the
-     deadline goroutine calls Remove(cuid) at some later time; whoever's Remove
-     succeeds closes done (ATmpRemove, AClose).  Time is not modelled: a deadline
-     goroutine may fire at any moment after the registration took effect. *)
+   * AddTmp: the wrapper calls finish when the function returned true, the deadline
+     goroutine calls finish at some later time; finish is Remove(cuid) (ATmpRemove) followed
+     by once.Do(close(done)) (AClose for the first caller): done is closed exactly once,
+     whoever removed the handler.  Time is not modelled: a deadline goroutine may fire at
+     any moment after the registration took effect. *)
 Require Import Bytes AMap Dispatch.
 
 Inductive outcome := ORet (b : bool) | OPanic.
@@ -47,8 +48,8 @@ Inductive action :=
 | ACall (i : nat) (op : rop)             (* registrar i calls op *)
 | ALin (i : nat) (op : rop)              (* ... op takes effect under Caller.mu *)
 | ARet (i : nat) (op : rop) (res : bool) (* ... returns (res: Remove's result, true otherwise) *)
-| ATmpRemove (h : N)                     (* AddTmp wrapper / deadline goroutine: c.Remove(cuid) *)
-| AClose (h : N).                        (* close(done) *)
+| ATmpRemove (h : N)                     (* AddTmp wrapper / deadline goroutine: finish calls c.Remove(cuid) *)
+| AClose (h : N).                        (* ... and the first finish closes done *)
 
 Record scenario := mkSc {
   sc_uid : N -> str;              (* fresh-id oracle *)
@@ -76,8 +77,8 @@ Record state := mkS {
   s_sg : nat -> N -> nat;     (* bg: wg.Done called, function not yet entered *)
   s_rn : nat -> N -> nat;     (* inside the handler function *)
   s_thr : nat -> list rop * rstage;
-  s_pend : N -> nat;          (* Remove(cuid) calls of wrappers / deadline goroutines still to come *)
-  s_toclose : N -> nat;       (* their Remove succeeded, close(done) still to come *)
+  s_pend : N -> nat;          (* finish calls of wrappers / deadline goroutines still to come *)
+  s_toclose : N -> nat;       (* finish calls that have done their Remove and not yet their once.Do *)
   s_closed : N -> nat;        (* close(done) executed *)
   s_crashed : bool }.
 
@@ -258,18 +259,21 @@ Section Machine.
       | _ => None
       end
     | ATmpRemove h =>
+      (* finish, first half: c.Remove(cuid); the once-only close is still to come *)
       if Nat.ltb 0 (s_pend s h) then
-        let (t', ok) := remove (s_tbl s) (reg_cuid (sc_uid sc) (sc_decl sc) h) in
+        let (t', _) := remove (s_tbl s) (reg_cuid (sc_uid sc) (sc_decl sc) h) in
         Some (mkS t' (s_arrived s) (s_disp s) (s_sp s) (s_sg s) (s_rn s) (s_thr s)
                   (upd1 (s_pend s) h (pred (s_pend s h)))
-                  (if ok then upd1 (s_toclose s) h (S (s_toclose s h)) else s_toclose s)
+                  (upd1 (s_toclose s) h (S (s_toclose s h)))
                   (s_closed s) false)
       else None
     | AClose h =>
-      if Nat.ltb 0 (s_toclose s h) then
+      (* finish, second half, for the first caller: once.Do(close(done)); later callers of
+         once.Do do nothing and are not actions *)
+      if Nat.ltb 0 (s_toclose s h) && Nat.eqb (s_closed s h) 0 then
         Some (mkS (s_tbl s) (s_arrived s) (s_disp s) (s_sp s) (s_sg s) (s_rn s) (s_thr s)
                   (s_pend s) (upd1 (s_toclose s) h (pred (s_toclose s h)))
-                  (upd1 (s_closed s) h (S (s_closed s h))) false)
+                  (upd1 (s_closed s) h 1%nat) false)
       else None
     end.
 
